@@ -139,6 +139,7 @@ def _k1_job(job):
         got = shape(M, P, res.f[0])
         if got != exp and json.loads(json.dumps(got)) != json.loads(json.dumps(exp)):
             part.add(role, 'expression `%s` parses to %s, Annex B.3.1 requires %s' % (src, got, exp), {'expr': src, 'got': got, 'expected': exp}, ('expr', (src, json.dumps(exp))))
+        elif len(part.validate) < 2: part.validate.append(('expr', (src, json.dumps(exp))))
         if len(part.samples) < 1: part.samples.append({'expr': src, 'tree': got})
     M.explore(entry, on_path)
     part.queries += M.stats['smt']; part.encoded = set(M.encoded); part.models = set(M.models_used)
